@@ -254,6 +254,7 @@ func Rename(a, b string) error {
 	}
 	return os.Rename(a, b)
 }
+
 // Remove issues what os.Remove issues: unlink, and when that fails (missing
 // file, or a directory) a second attempt with rmdir.
 func Remove(name string) error {
